@@ -105,9 +105,9 @@ def run(ctx):
             raise tlc.MachineryError("Read never taken in model %s: %s" % (label, cov))
         graphs.append((label, consts, nodes, edges, init))
     wconsts = _consts((2, 3), (0, 4), (28,), 1, 2)
-    wcfg = tlc.write_cfg(os.path.join(ctx.scratch, "witness.cfg"), constants=wconsts, invariants=WITNESSES, deadlock=False)
-    wres = tlc.run_tlc("Framing", wcfg, ctx.scratch, timeout=600, extra=("-continue",))
-    reached = set(re.findall(r"Invariant (\w+) is violated", wres.out))
+    wcfg = tlc.write_cfg(os.path.join(ctx.scratch, "witness.cfg"), constants=wconsts, constraints=["WitnessScan"], deadlock=False)
+    wres = tlc.check_model("Framing", wcfg, ctx.scratch, timeout=600, workers=1)
+    reached = set(v[1] for v in wres.printed("WITNESS") if isinstance(v, tuple) and len(v) == 2)
     if reached != set(WITNESSES):
         raise tlc.MachineryError("vacuity witnesses not reachable: %s" % sorted(set(WITNESSES) - reached))
     ctx.note("vacuity_witnesses_reached", len(WITNESSES))
